@@ -43,6 +43,11 @@ pub struct Plan {
     pub decision: c02::Decision,
     pub burn: u64,
     pub ops: Vec<AppOp>,
+    /// per-stream receive window of the raw peer in bytes (0 = default 64 KiB): with a few
+    /// bytes of credit every frame the endpoint writes is accepted in pieces with
+    /// `Pending` in between, so a write future that loses its progress shows on the wire
+    #[serde(default)]
+    pub raw_stream_window: u64,
 }
 
 pub fn gen_plan(seed: u64, index: usize, tier: Tier) -> Plan {
@@ -75,7 +80,8 @@ pub fn gen_plan(seed: u64, index: usize, tier: Tier) -> Plan {
         })
         .collect();
     let decision = if server_under_test && rng.chance_pm(300) { base.decision.clone() } else { c02::Decision::Accept };
-    Plan { seed, rt: RtKnobs::from_rng(&mut rng), net, server_under_test, path: if base.path.is_empty() { "/".into() } else { base.path }, query: base.query, headers: base.headers, decision, burn, ops }
+    let raw_stream_window = if rng.chance_pm(350) { *rng.pick(&[1u64, 3, 8, 16, 24, 32, 48, 100, 700]) } else { 0 };
+    Plan { seed, rt: RtKnobs::from_rng(&mut rng), net, server_under_test, path: if base.path.is_empty() { "/".into() } else { base.path }, query: base.query, headers: base.headers, decision, burn, ops, raw_stream_window }
 }
 
 struct Wire {
@@ -368,9 +374,16 @@ pub fn execute(plan: &Plan, trace: bool) -> Exec {
         let mut r = Rng::new(plan.seed, "c16-endpoints");
         let mut k = EpKnobs::default();
         k.max_bi = 400;
+        let raw_transport = || {
+            let mut t = sut::raw_transport();
+            if plan.raw_stream_window > 0 {
+                t.stream_receive_window(quinn::VarInt::from_u64(plan.raw_stream_window).unwrap());
+            }
+            t
+        };
         if plan.server_under_test {
             let s = sut::sut_server(&net, &k, &mut r);
-            let (rep, _rs) = rp::raw_client_endpoint(&net, rp::RAW_CLIENT_ADDR.parse().unwrap(), sut::raw_transport(), r.seed32(), b"h3");
+            let (rep, _rs) = rp::raw_client_endpoint(&net, rp::RAW_CLIENT_ADDR.parse().unwrap(), raw_transport(), r.seed32(), b"h3");
             let sep = s.ep;
             let decision = plan.decision.clone();
             let ops = plan.ops.clone();
@@ -416,7 +429,7 @@ pub fn execute(plan: &Plan, trace: bool) -> Exec {
             drop(rep);
             Ok::<_, String>(Wire { rec: recs, connect_bytes, session_id, expected_payloads: done, established })
         } else {
-            let (rep, _rs) = rp::raw_server_endpoint(&net, rp::RAW_SERVER_ADDR.parse().unwrap(), sut::raw_transport(), r.seed32());
+            let (rep, _rs) = rp::raw_server_endpoint(&net, rp::RAW_SERVER_ADDR.parse().unwrap(), raw_transport(), r.seed32());
             let c = sut::sut_client(&net, &k, &mut r);
             let cep = c.ep;
             let mut url = format!("https://{}{}", rp::RAW_SERVER_ADDR, plan.path);
